@@ -48,6 +48,7 @@ class Ctx:
         self.counts = {}
         self.t0 = time.time()
         self.current_config = None
+        self._rename = {}
 
     def model(self, config):
         m = self._models.get(config)
@@ -65,12 +66,28 @@ class Ctx:
     def rule(self, rid, text):
         self.rule_texts[rid] = text
 
+    def renamed(self, mapping):
+        """context manager: rule ids emitted by a rule function shared with another property are
+        recorded under this property's ids."""
+        ctx = self
+
+        class _R:
+            def __enter__(self_):
+                self_.old = dict(ctx._rename)
+                ctx._rename.update(mapping)
+
+            def __exit__(self_, *a):
+                ctx._rename = self_.old
+        return _R()
+
     def ok(self, rule, where, detail, nontrivial=True, sample=None):
+        rule = self._rename.get(rule, rule)
         self.instances.append((rule, self.current_config, where, detail, nontrivial, sample))
         k = (rule, self.current_config)
         self.counts[k] = self.counts.get(k, 0) + 1
 
     def fail(self, rule, where, detail, site=None, path=None):
+        rule = self._rename.get(rule, rule)
         v = Violation(self.prop, rule, where, detail, site=site, config=self.current_config, path=path)
         # the same line-free key may be hit in several configs: keep one per (key, config)
         self.violations.append(v)
